@@ -32,6 +32,10 @@ type Val struct {
 	Prop  bool         // KBool given as a decidable Prop
 	T     *types.Named // KStruct
 	Epoch int          // > 0: a view of the serialize buffer taken at this epoch (stale once the buffer is written)
+
+	IsConst bool  // KNat whose value is known statically although Go does not treat the expression as a constant (a.cipher.BlockSize())
+	Const   int64 // its value
+	View    *view // KBytes: the local ALIASES b.Bytes()[lo:] of the buffer's current array (ext.go); killed by every allocation
 }
 
 // window: the one slice into the buffer that may be written
@@ -338,6 +342,9 @@ func (f *fn) natIndex(e ast.Expr) (string, int) {
 			c = int(n)
 		}
 	}
+	if c < 0 && v.IsConst && v.Const >= 0 {
+		c = int(v.Const)
+	}
 	return f.natOf(e, v), c
 }
 
@@ -576,7 +583,12 @@ func (f *fn) sliceExpr(x *ast.SliceExpr) Val {
 	if base.K == KWin {
 		ep = f.epoch
 	}
-	return Val{S: t, K: KBytes, N: n, Epoch: ep}
+	out := Val{S: t, K: KBytes, N: n, Epoch: ep}
+	if x.High == nil && f.isBufBytesCall(x.X) {
+		// `b.Bytes()[lo:]`: besides the bytes it holds now (t), the slice aliases the buffer's array from lo on
+		out.View = &view{lo: f.stableNat(lo)}
+	}
+	return out
 }
 
 var binOps = map[token.Token]string{token.AND: "&&&", token.OR: "|||", token.XOR: "^^^", token.ADD: "+", token.SUB: "-", token.MUL: "*",
@@ -625,7 +637,7 @@ func (f *fn) binop(n ast.Node, op token.Token, a, b Val, ytv types.TypeAndValue)
 	cmp := op == token.EQL || op == token.NEQ || op == token.LSS || op == token.LEQ || op == token.GTR || op == token.GEQ
 	if op == token.QUO || op == token.REM {
 		// only by a positive constant (no division-by-zero panic)
-		if ytv.Value == nil || constant.Sign(ytv.Value) <= 0 {
+		if !(b.IsConst && b.Const > 0) && (ytv.Value == nil || constant.Sign(ytv.Value) <= 0) {
 			f.fail(n, "division by a non-constant")
 		}
 		if a.K == KInt {
